@@ -417,9 +417,11 @@ package generic
 //@   requires live: self.t != thrift.ERROR
 //@   callsite (*FieldDescriptor).Type assumes schema: r0 != nil
 //@   callsite (Value).slice assumes schema: ((a3.typ == thrift.LIST || a3.typ == thrift.SET) ==> a3.elem != nil) && (a3.typ == thrift.MAP ==> a3.elem != nil && a3.key != nil)
-//@   ensures inside: r0.t != thrift.ERROR && len(pathes) > 0 ==> samerg(r0.v, self.v) && offset(r0.v) >= offset(self.v) && \
+//@   ensures inside: r0.t != thrift.ERROR ==> samerg(r0.v, self.v) && offset(r0.v) >= offset(self.v) && \
 //@       offset(r0.v) + r0.l <= offset(self.v) + self.l && r0.l >= 0
 //@   ensures valid: windowif(r0.t != thrift.ERROR, r0.v, r0.l)
+//@   ensures nflast: r0.t == thrift.ERROR && r0.et == 1 ==> samerg(r0.v, self.v) && offset(r0.v) <= offset(self.v) + self.l && \
+//@       offset(r0.v) >= offset(self.v) + ite(r0.kt == thrift.MAP, 6, ite(r0.kt == thrift.LIST || r0.kt == thrift.SET, 5, 0))
 //@   loop 1
 //@     invariant buf: samerg(p.Buf, self.v) && offset(p.Buf) == offset(self.v) && len(p.Buf) == self.l && self.t != thrift.ERROR
 //@     invariant cur: 0 <= p.Read && p.Read <= len(p.Buf) && 0 <= start && start <= p.Read
@@ -527,3 +529,35 @@ package generic
 //@       self.Next[old(len(self.Next))].Node.t == val.t && same(self.Next[old(len(self.Next))].Node.v, val.v) && self.Next[old(len(self.Next))].Node.l == val.l
 //@   ensures keep: r0 ==> len(self.Next) == old(len(self.Next))
 //@   modifies self.Next, self.Next[0:cap(self.Next)]
+
+// Value.SetByPath / UnsetByPath: as the Node variants; a trailing field NAME is turned into its id through the
+// descriptor. ASSUMED (callsite clauses): the descriptor lookups that repeat what GetByPath has just done succeed
+// again (GetDescByPath yields the struct descriptor, FieldByKey the field) — GetDescByPath itself is not verified.
+//@ spec GetDescByPath
+//@   trusted
+
+//@ spec (*Value).SetByPath
+//@   props C04 C06
+//@   requires live: self.t != thrift.ERROR && sub.t != thrift.ERROR
+//@   requires sep: !samerg(self, self.v) && !samerg(sub.v, self.v) && !samerg(self, sub.v)
+//@   requires paths: forall k :: 0 <= k && k < len(path) ==> pathok(path[k].t, path[k].l) && !samerg(path[k].v, self.v)
+//@   callsite GetDescByPath assumes again: r1 == nil ==> r0 != nil && r0.struc != nil
+//@   callsite (StructDescriptor).FieldByKey assumes again: r0 != nil
+//@   callsite (*FieldDescriptor).Type assumes schema: r0 != nil
+//@   callsite (Value).slice assumes schema: ((a3.typ == thrift.LIST || a3.typ == thrift.SET) ==> a3.elem != nil) && (a3.typ == thrift.MAP ==> a3.elem != nil && a3.key != nil)
+//@   ensures root: len(path) == 0 ==> exist && err == nil
+//@   ensures okk: err == nil && len(path) > 0 ==> fresh(self.v) && self.l >= 0
+//@   ensures existed: exist && len(path) > 0 ==> forall i :: 0 <= i && i < old(self.l) ==> byteat(old(self.v), i) == old(byteat(self.v, i))
+//@   ensures fail: err != nil ==> self.l == old(self.l) && samerg(self.v, old(self.v)) && offset(self.v) == old(offset(self.v))
+//@   modifies *self, bytes(self.v, self.l)
+
+//@ spec (*Value).UnsetByPath
+//@   props C04 C06
+//@   requires live: self.t != thrift.ERROR
+//@   requires sep: !samerg(self, self.v)
+//@   requires paths: forall k :: 0 <= k && k < len(path) ==> pathok(path[k].t, path[k].l)
+//@   callsite GetDescByPath assumes again: r1 == nil ==> r0 != nil && r0.struc != nil
+//@   callsite (StructDescriptor).FieldByKey assumes again: r0 != nil
+//@   ensures ok: r0 == nil && len(path) > 0 && old(self.t) != thrift.ERROR ==> self.l <= old(self.l) && self.l >= 0
+//@   ensures fail: r0 != nil ==> self.l == old(self.l) && samerg(self.v, old(self.v)) && offset(self.v) == old(offset(self.v))
+//@   modifies *self, bytes(self.v, self.l)
